@@ -48,6 +48,9 @@ func VerifC11Int64Decoder() {
 	}
 	var m Int64Msg
 	err := m.UnmarshalJSON(body)
+	if top == 2 && kind == "null" {
+		verif.Reach("C11/int64/null-list-element")
+	}
 	verif.Show("kind", kind)
 	verif.Show("accepted", err == nil)
 	if err != nil {
@@ -72,6 +75,10 @@ func VerifC11Int64Decoder() {
 			verif.Assert("C11/int64/accepted-string-value-is-delivered", m.Big == ref)
 		}
 	case "null":
+		if top == 2 {
+			// proto3 JSON: null is not a value of a list element (protojson rejects it)
+			verif.Assert("C11/int64/null-list-element-never-accepted", false) // the defect repaired in 0348d49
+		}
 		verif.Assert("C11/int64/null-leaves-default", m.Big == 0 && m.Ubig == 0)
 	default:
 		verif.Assert("C11/int64/undecodable-value-never-accepted", false)
